@@ -240,6 +240,8 @@ func runC04(c *Ctx) {
 		c.verdict(n >= 1 && len(bad) == 0, "module | no list element is walked from after its removal", "", fmt.Sprintf("%d List.Remove site(s); none followed by Next/Prev on the removed element", n), join(uniq(bad)), c.ats(sites)...)
 	})
 
+	c.rule("C04.P1", "the sync never wedges itself: "+lockOrderDoc, func() { c.lockOrder() })
+
 	c.rule("C04.O6", "the honest peer stays reachable for queries: "+workerPerPeerDoc, func() { c.workerPerPeer() })
 
 	c.rule("C04.O1", "progress steps (each a necessary condition of convergence): losing the sync peer re-selects one; a new sync candidate triggers startSync; a selected sync peer is asked for headers; a committed headers batch updates the header tip, wakes the filter-header sync and asks for more while not current; committed filter headers wake their waiters; an accepted peer is announced to the block manager and its departure too; the subscription manager is started before the broadcaster subscribes", func() {
@@ -351,6 +353,11 @@ func runC04(c *Ctx) {
 			}
 		}
 		pushCut := errCut(fn, find(fn, callTo(push)), 0) // tabled exception: PushGetHeadersMsg error return
+		// a committed batch is a non-empty batch: a variable that is given a
+		// non-nil value before every append to that batch (and never nil
+		// again) is non-nil once the batch was committed, so the "is nil"
+		// edge of its tests cannot be taken behind the commit
+		pushCut = ir.Union(pushCut, c.setWithEveryAppend(fn, appendsOf(hdr)))
 		c.mustFollow(fn, "headers batch committed", c.successEdges(gw), storeToField(bm("headerTip")), "b.headerTip = finalHeight", pushCut, 1)
 		c.mustFollow(fn, "headers batch committed", c.successEdges(gw), isBcast(bm("newHeadersSignal")), "newHeadersSignal.Broadcast()", pushCut, 1)
 		// tip update under the mutex
@@ -449,4 +456,140 @@ func runC04(c *Ctx) {
 		})
 		c.verdict(n >= 2, c.nm(st)+" | starts blockHandler and cfHandler", c.P.Pos(st.Pos()), "both goroutines started", "blockManager.Start no longer starts both the block handler and the filter-header handler")
 	})
+}
+
+// setWithEveryAppend returns the "is nil" edges of the nil tests of pointer
+// variables of fn for which the invariant "something was appended => the
+// variable is non-nil" holds: the variable is carried around the loop that
+// holds the appends; on every path to each append it was assigned a value that
+// cannot be nil (the assigning edge dominates the append's block); and inside
+// the loop it is never assigned nil.
+func (c *Ctx) setWithEveryAppend(fn *ssa.Function, isAppend Sel) ir.Cut {
+	cut := ir.Cut{}
+	apps := find(fn, isAppend)
+	var inLoopApps []ssa.Instruction
+	var h *ssa.BasicBlock
+	for _, a := range apps {
+		if lh := ir.LoopHeaderOf(a.Block()); lh != nil {
+			// the outermost loop around the append
+			for {
+				outer := (*ssa.BasicBlock)(nil)
+				for _, b := range fn.Blocks {
+					if b != lh && len(ir.BackEdgesTo(b)) > 0 && ir.LoopBlocks(b)[lh] && (outer == nil || len(ir.LoopBlocks(b)) < len(ir.LoopBlocks(outer))) {
+						outer = b
+					}
+				}
+				if outer == nil {
+					break
+				}
+				lh = outer
+			}
+			if h == nil || h == lh {
+				h = lh
+				inLoopApps = append(inLoopApps, a)
+			}
+		}
+	}
+	if h == nil || len(inLoopApps) == 0 {
+		return cut
+	}
+	inLoop := ir.LoopBlocks(h)
+	for _, in := range h.Instrs {
+		p, ok := in.(*ssa.Phi)
+		if !ok {
+			break
+		}
+		if _, isPtr := p.Type().Underlying().(*types.Pointer); !isPtr {
+			continue
+		}
+		// the phi web of the variable inside the loop
+		web := map[*ssa.Phi]bool{p: true}
+		for changed := true; changed; {
+			changed = false
+			for q := range web {
+				for _, e := range q.Edges {
+					if e2, ok := e.(*ssa.Phi); ok && inLoop[e2.Block()] && !web[e2] {
+						web[e2] = true
+						changed = true
+					}
+				}
+			}
+		}
+		type assign struct{ from *ssa.BasicBlock }
+		var sets []assign
+		okVar := true
+		for q := range web {
+			for i, e := range q.Edges {
+				if _, isPhi := e.(*ssa.Phi); isPhi && web[e.(*ssa.Phi)] {
+					continue
+				}
+				pred := q.Block().Preds[i]
+				if !inLoop[pred] {
+					continue // the value before the loop
+				}
+				if ir.IsNil(ir.Strip(e)) {
+					okVar = false // reset inside the loop
+				} else if ir.KnownNonNil(e) {
+					sets = append(sets, assign{pred})
+				} else {
+					okVar = false
+				}
+			}
+		}
+		if !okVar || len(sets) == 0 {
+			continue
+		}
+		for _, a := range inLoopApps {
+			covered := false
+			for _, st := range sets {
+				if st.from == a.Block() || st.from.Dominates(a.Block()) {
+					covered = true
+				}
+			}
+			if !covered {
+				okVar = false
+			}
+		}
+		if !okVar {
+			continue
+		}
+		// the nil tests of the variable after the loop
+		vals := map[ssa.Value]bool{}
+		for q := range web {
+			vals[q] = true
+		}
+		ir.Instrs(fn, func(x ssa.Instruction) {
+			b, ok := x.(*ssa.BinOp)
+			if !ok || (b.Op != token.EQL && b.Op != token.NEQ) || inLoop[x.Block()] {
+				return
+			}
+			var v ssa.Value
+			switch {
+			case ir.IsNil(b.Y):
+				v = b.X
+			case ir.IsNil(b.X):
+				v = b.Y
+			default:
+				return
+			}
+			// the variable itself or a merge of it made after the loop
+			isVar := vals[v]
+			if q, isPhi := v.(*ssa.Phi); isPhi && !isVar {
+				all := true
+				for _, e := range q.Edges {
+					if !vals[e] {
+						all = false
+					}
+				}
+				isVar = all
+			}
+			if !isVar {
+				return
+			}
+			for _, nb := range ir.NilBranches(v) {
+				cut[nb.Edge()] = true
+			}
+		})
+	}
+	return cut
 }
